@@ -73,4 +73,51 @@ theorem decodeUtf8NoCb_eq (bs : List UInt8) : decodeUtf8NoCb bs = (decodeUtf8 bs
   rcases hc : update Utf8.init bs with ⟨d1, e1, cps⟩
   cases e1 <;> simp
 
+/-- fold-append law with a failing callback -/
+theorem updateFail_append : ∀ (xs ys : List UInt8) (k : Nat) (d : Utf8),
+    updateFail k d (xs ++ ys) =
+      match updateFail k d xs with
+      | (d', some s, cps, k') => (d', some s, cps, k')
+      | (d', none, cps, k') =>
+        ((updateFail k' d' ys).1, (updateFail k' d' ys).2.1, cps ++ (updateFail k' d' ys).2.2.1, (updateFail k' d' ys).2.2.2)
+  | [], ys, k, d => by simp [updateFail]
+  | b :: xs, ys, k, d => by
+    simp only [List.cons_append, updateFail]
+    rcases hb : updateByte d b with ⟨d1, e1, cp⟩
+    cases e1 with
+    | some e => simp
+    | none =>
+      cases cp with
+      | none =>
+        dsimp only
+        rw [updateFail_append xs ys k d1]
+      | some c =>
+        cases k with
+        | zero => simp
+        | succ k' =>
+          dsimp only
+          rw [updateFail_append xs ys k' d1]
+          rcases hx : updateFail k' d1 xs with ⟨d2, s2, cps, k2⟩
+          cases s2 with
+          | some s => simp
+          | none => simp
+
+theorem runChunksFail_flatten : ∀ (cs : List (List UInt8)) (k : Nat) (d : Utf8),
+    runChunksFail k d cs =
+      match updateFail k d cs.flatten with
+      | (_, some s, cps, _) => (some s, cps)
+      | (d', none, cps, _) => (((finalize d').2).map Stop.err, cps)
+  | [], k, d => by simp [runChunksFail, updateFail]
+  | c :: cs, k, d => by
+    simp only [runChunksFail, List.flatten_cons]
+    rw [updateFail_append c cs.flatten k d]
+    rcases hc : updateFail k d c with ⟨d1, s1, cps, k1⟩
+    cases s1 with
+    | some s => simp
+    | none =>
+      dsimp only
+      rw [runChunksFail_flatten cs k1 d1]
+      rcases hx : updateFail k1 d1 cs.flatten with ⟨d2, s2, cps2, k2⟩
+      cases s2 <;> simp
+
 end AwsVerif.Proofs.C05
